@@ -724,6 +724,13 @@ func (l *lexer) lexToken(tok int) action {
 }
 
 func (l *lexer) lexRedir() action {
+	return l.lexRedirs(true)
+}
+
+// lexRedirs scans the redirections of a compound command. A reserved word
+// is recognised directly behind the closing token of the compound command
+// only, not behind one of its redirections.
+func (l *lexer) lexRedirs(first bool) action {
 	tok := l.scanToken()
 	switch tok {
 	case '<', '>', CLOBBER, APPEND, HEREDOC, HEREDOCI, DUPIN, DUPOUT, RDWR:
@@ -735,14 +742,16 @@ func (l *lexer) lexRedir() action {
 		goto Redir
 	case WORD:
 		// reserved word
-		if tok = l.tr(tok); tok != WORD {
-			return l.lexCmd(tok)
+		if first {
+			if tok = l.tr(tok); tok != WORD {
+				return l.lexCmd(tok)
+			}
 		}
 	}
 	return l.lexToken(tok)
 Redir:
 	l.emit(tok)
-	return l.lexRedir
+	return func() action { return l.lexRedirs(false) }
 }
 
 func (l *lexer) lexHeredoc() action {
